@@ -173,7 +173,7 @@ def apply_fault(cfg, f):
     return (cfggen.board_yaml(c), cfggen.track_yaml(c), cfggen.train_yaml(c))
 
 def run(ctx):
-    ctx.rule = ('valid: generated configurations (0-4 boards, every section absent/empty/populated, ids and values over the legal ranges) with a node tree; '
+    ctx.rule = ('valid: generated configurations (0-4 boards, every section absent/empty/populated, ids (some with printf conversion characters) and values over the legal ranges, DCC addresses over the full 16 bits of the 0x<hhll> format incl. pairs that differ in the top two bits only) with a node tree; '
                 'the start result, all enumeration getters and the initial snapshot are compared with the abstract description. faults: each single-fault '
                 'class of the statement applied at (up to 10 per class and base) applicable positions must give return value 1. non-trivial = distinct '
                 '(fault class, position) rejected, plus distinct valid configurations with >=1 board')
@@ -182,7 +182,7 @@ def run(ctx):
     nvalid = ctx.n(150, 6000)
     for k in range(nvalid):
         rng = ctx.sub_rng('c14v', k)
-        cfg = cfggen.gen_config(rng)
+        cfg = cfggen.gen_config(rng, wide_dcc=(k % 3 == 1), odd_ids=(k % 5 == 2))
         d = cfggen.write_config(cfg, cfg_dir(f'c14v_{k}'))
         nodes = cfggen.assign_tree(rng, cfg, absent_prob=0.2)
         sc = Scn(seed=ctx.seed * 61 + k, watchdog=240000)
@@ -191,7 +191,7 @@ def run(ctx):
     nbases = ctx.n(12, 400)
     for k in range(nbases):
         rng = ctx.sub_rng('c14f', k)
-        cfg = cfggen.gen_config(rng, nboards=rng.randrange(2, 5))
+        cfg = cfggen.gen_config(rng, nboards=rng.randrange(2, 5), wide_dcc=(k % 2 == 1), odd_ids=(k % 4 == 3))
         fs = faults(cfg, rng)
         bycls = {}
         for f in fs:
